@@ -455,6 +455,151 @@ def cstep0_restart(ctx, n_ens, workers, steps, screen, with_model, outs):
         outs.append((sim, label))
 
 
+# ----------------------------------------------------------------------------- hole weight vectors (known finding)
+def _real_path(ops):
+    from infretis.classes.path import Path
+    from infretis.classes.system import System
+    p = Path(maxlen=10_000)
+    for o in ops:
+        sy = System()
+        sy.order = [float(o)]
+        p.phasepoints.append(sy)
+    return p
+
+
+def _legal(ops, ens, intfs):
+    """the acceptance conditions of a shooting path of ensemble `ens` (-1 = [0-]): every frame but the two ends lies
+    strictly on the ensemble's side of lambda_0 and below the last interface, both ends are outside, it starts at
+    lambda_0's other side, and (plus ensembles) it crosses its own interface"""
+    lo, hi = intfs[0], intfs[-1]
+    if len(ops) < 3:
+        return False
+    if ens == -1:
+        return ops[0] >= lo and ops[-1] >= lo and all(x < lo for x in ops[1:-1])
+    inner_ok = all(lo < x < hi for x in ops[1:-1])
+    return ops[0] <= lo and (ops[-1] <= lo or ops[-1] >= hi) and inner_ok and max(ops) >= intfs[ens]
+
+
+def hole_witness(ctx, spec, report=True):
+    """A configuration + explicit ORDER SEQUENCES (each a legal path of the ensemble it is used in); the weight vectors
+    are computed by the REAL calc_cv_vector and fed through the real add_traj / treat_output with scripted picks.
+    Returns "stall" (sort_trajstate exceeds n*n+4 swaps: it would never return), "assert" (inf_retis' row-sum
+    assertion), "none", or "bad-spec:<why>"."""
+    from infretis.core.tis import calc_cv_vector
+    intfs = [float(x) for x in spec["interfaces"]]
+    moves, cap, workers = list(spec["moves"]), spec.get("cap"), int(spec.get("workers", 1))
+    n_ens = len(intfs)
+    label = f"hole-witness {spec.get('name', '')} interfaces={intfs} moves={moves} cap={cap} workers={workers}"
+    rep0 = {"history": label, "params": ["hole", spec], "ctxseed": ctx.seed}
+
+    def vec(ops, ens):
+        return tuple(float(x) for x in calc_cv_vector(_real_path(ops), intfs, moves, False, cap=cap, minus=(ens < 0)))
+
+    init = {int(k): [float(x) for x in v] for k, v in spec["initial"].items()}
+    for ens in range(-1, n_ens - 1):
+        if ens not in init or not _legal(init[ens], ens, intfs):
+            return f"bad-spec:initial path of ensemble {ens}"
+    for stp in spec["steps"]:
+        if not _legal([float(x) for x in stp["ops"]], int(stp["ens"]), intfs):
+            return f"bad-spec:step path {stp['ops']} is not a legal path of ensemble {stp['ens']}"
+    script = [dict(stp) for stp in spec["steps"]] + [dict(x) for x in spec.get("then_pick", [])]
+    pos = {"i": 0}
+
+    class W(C05Sim):
+        def _choose(self, kind, payload):
+            cur = script[min(pos["i"], len(script) - 1)]
+            if kind == "random":
+                out = 0.25 if cur.get("coin") else 0.75
+            else:
+                a, p = payload
+                if a == self.n ** 2:
+                    t, e = cur["pick"]
+                    out = t * self.n + e
+                else:
+                    out = int(cur.get("partner", 0))
+                if p is None or not (p[out] > 1e-12):
+                    raise RuntimeError(f"scripted outcome {out} has probability {None if p is None else p[out]}")
+            self.decisions.append((kind, payload, out))
+            return out
+
+    cwd0 = os.getcwd()
+    old = signal.signal(signal.SIGVTALRM, _on_vtalrm)
+    signal.setitimer(signal.ITIMER_VIRTUAL, 20.0)
+    sim, outcome, where = None, "none", ""
+    try:
+        C05Sim.screen, C05Sim.load_every = 0, 0
+        sim = W(ctx, n_ens, workers, 50, seed=0, rng=random.Random(0))
+        sim.cfg["simulation"]["interfaces"] = intfs
+        sim.cfg["simulation"]["shooting_moves"] = moves
+        if cap is not None:
+            sim.cfg["simulation"]["tis_set"]["interface_cap"] = cap
+        sim.load_initial([T.FakePath(i, vec(init[i - 1], i - 1)) for i in range(n_ens)])
+        if any(r != "ok" for r, k in zip(sim.real, sim.kinds) if k == "load"):
+            return "bad-spec:an initial path is not valid in its own ensemble"
+        base = {"mc_moves": moves, "interfaces": intfs, "cap": cap}
+        inflight = []
+        try:
+            while sim.op_initiate():
+                inflight.append(sim.op_prep(copy.deepcopy(base)))
+                pos["i"] += 0
+            for stp in spec["steps"]:
+                if not sim.op_loop():
+                    break
+                md = inflight.pop(0)
+                ens = int(stp["ens"])
+                if list(md["picked"].keys()) != [ens]:
+                    return f"bad-spec:the job holds {list(md['picked'].keys())}, the script expects [{ens}]"
+                where = f"treat_output of the path {stp['ops']} accepted in ensemble {ens}"
+                w = vec([float(x) for x in stp["ops"]], ens)
+                md = sim.op_treat(md, "ACC", [list(w)])
+                pos["i"] += 1
+                where = f"the pick after the path {stp['ops']} was accepted in ensemble {ens}"
+                if pos["i"] < len(script):
+                    inflight.append(sim.op_prep(md))
+        except Stall as e:
+            outcome, where = "stall", where + ": " + str(e)
+        except AssertionError:
+            import traceback
+            tb = traceback.extract_tb(__import__("sys").exc_info()[2])
+            outcome = "assert" if any(fr.name == "inf_retis" for fr in tb) else "other-assert"
+        except Exception as e:  # noqa: BLE001
+            outcome, where = f"raised:{type(e).__name__}", where + f": {e}"
+        if sim is not None and report:
+            st = sim.st
+            state = {"W": [[float(x) for x in r] for r in st.state], "locks": [int(x) for x in st._locks],
+                     "trajs": ["-" if t == "" else t.path_number for t in st._trajs]}
+            vecs = [{"ens": int(stp["ens"]), "ops": stp["ops"], "weights": vec([float(x) for x in stp["ops"]], int(stp["ens"]))}
+                    for stp in spec["steps"]]
+            if outcome == "stall":
+                ctx.fail("C05:hole-weight-vector:sort-stalls",
+                         f"{label}: {where}; weight vectors from calc_cv_vector: {vecs}", dict(rep0, state=state))
+            elif outcome == "assert":
+                ctx.fail("C05:hole-weight-vector:prob-assertion",
+                         f"{label}: inf_retis' assertion `allclose(sum(out, axis=1), 1)` fails in {where}; "
+                         f"weight vectors from calc_cv_vector: {vecs}", dict(rep0, state=state))
+            elif outcome != "none":
+                ctx.fail("C05:sampler-raised", f"{label}: {outcome} in {where}", dict(rep0, state=state))
+        ctx.count(1, branch="hole-witness", outcome=outcome.split(":")[0])
+        return outcome
+    except Stall as e:
+        if report:
+            ctx.fail("C05:stall", f"{e} ({label}, outside a step)", rep0)
+        return "stall-outside"
+    finally:
+        signal.setitimer(signal.ITIMER_VIRTUAL, 0)
+        signal.signal(signal.SIGVTALRM, old)
+        C05Sim.screen, C05Sim.load_every = 0, 1
+        if sim is not None:
+            try:
+                sim.close()
+            except Exception:  # noqa: BLE001
+                pass
+        try:
+            os.chdir(cwd0)
+        except OSError:
+            pass
+
+
 def run(ctx):
     rng = ctx.rng
     ctx.rule = ("snapshots of scheduler-shaped histories of the real REPEX_state (2..8 ensembles, workers 1..ensembles-1, "
@@ -555,6 +700,10 @@ def replay(ctx, obj):
         return 1
     ctx.seed = r.get("ctxseed", ctx.seed)
     ps = r["params"]
+    if ps and ps[0] == "hole":
+        out = hole_witness(ctx, ps[1], report=False)
+        print("hole witness outcome:", out, "(expected", ps[1].get("expect"), ")")
+        return 1 if out == ps[1].get("expect") else 0
     if ps and ps[0] == "sort":
         sort_case(ctx, int(ps[1]), ctx.rng, int(ps[2]))
     elif ps and ps[0] == "cstep0":
